@@ -176,6 +176,17 @@ type Sim struct {
 	atomVC   map[uintptr][]uint32
 	sharedOn []bool // per site
 	conds    map[*sync.Cond][]*condWaiter
+	live     []*Task // tasks that have not exited, in creation order
+	events   uint64  // harness events folded in so far
+	// periodic idling: the same configuration met again and again at clock jumps without any
+	// harness-visible event in between (code that polls with time.After in a loop)
+	idleCfg    uint64
+	idleEvents uint64
+	idleRepeat int
+	// PeriodicIdle: the run ended because the system only polled (see Run)
+	PeriodicIdle bool
+	// HBDisabled: clocks and race detection were switched off during the run (too many tasks)
+	HBDisabled bool
 
 	ClockJumps  int
 	TimerFires  int
@@ -233,7 +244,7 @@ func (s *Sim) mix(vals ...uint64) {
 func (s *Sim) Hash() uint64 { return s.hash }
 
 // Event lets a harness fold an observable event into the run digest.
-func (s *Sim) Event(vals ...uint64) { s.mix(vals...) }
+func (s *Sim) Event(vals ...uint64) { s.events++; s.mix(vals...) }
 
 // Now returns simulated nanoseconds since the epoch.
 func (s *Sim) NowNS() int64 { return s.now }
@@ -277,6 +288,14 @@ func (s *Sim) newTask(site int32, class string, name string, f func()) *Task {
 		t.vc[t.ID] = 1
 	}
 	s.Tasks = append(s.Tasks, t)
+	s.live = append(s.live, t)
+	if s.cfg.HB && len(s.Tasks) > maxHBTasks {
+		// vector clocks grow with the number of tasks ever created (a goroutine per message in a
+		// long run): beyond this point clocks are no longer maintained and races no longer
+		// detected in this run; every other oracle is unaffected
+		s.cfg.HB = false
+		s.HBDisabled = true
+	}
 	if st, ok := s.cfg.Strategy.(taskAware); ok {
 		st.OnNewTask(s, t)
 	}
@@ -368,9 +387,14 @@ func topFrame(stk string) string {
 func TopFrame() string { return topFrame(string(debug.Stack())) }
 
 // Go starts f as a new simulated task (or a plain goroutine outside a simulation).
+// ForeignGo counts goroutines that instrumented code started while no simulation was active:
+// they live outside every later simulation and the simulator cannot decide when they run.
+var ForeignGo int
+
 func Go(site int32, f func()) {
 	s := cur
 	if s == nil {
+		ForeignGo++
 		go f()
 		return
 	}
@@ -406,21 +430,28 @@ func (s *Sim) caller() *Task {
 
 // park parks the calling task at gate g and returns when the scheduler releases it.
 func (s *Sim) park(g gate) wakeMsg {
+	if s.tearing {
+		// a deferred function of a task that is being torn down reached a gate
+		runtime.Goexit()
+	}
 	t := s.caller()
 	if t == nil {
 		panic("simrt: gate called outside any simulated task")
 	}
-	if s.tearing {
-		runtime.Goexit()
-	}
-	t.pend = g
-	t.state = tsParked
-	s.yield <- t
-	m := <-t.wake
+	m := s.parkRaw(t, g)
 	if m.poison {
 		runtime.Goexit()
 	}
 	return m
+}
+
+// parkRaw parks without ending the goroutine on teardown: the caller decides what has to be
+// put in order before it exits (CondWait re-acquires its lock so that deferred unlocks balance).
+func (s *Sim) parkRaw(t *Task, g gate) wakeMsg {
+	t.pend = g
+	t.state = tsParked
+	s.yield <- t
+	return <-t.wake
 }
 
 // Yield is an always-ready scheduling point.
@@ -534,7 +565,7 @@ func (s *Sim) ready(t *Task) bool {
 // partnerFor finds a parked task that can rendezvous with t on unbuffered channel p;
 // parm is the partner's select arm (-1 for a plain send/receive gate).
 func (s *Sim) partnerFor(t *Task, p uintptr, tSends bool) (partner *Task, parm int) {
-	for _, o := range s.Tasks {
+	for _, o := range s.live {
 		if o == t || o.state != tsParked {
 			continue
 		}
@@ -560,6 +591,33 @@ func (s *Sim) partnerFor(t *Task, p uintptr, tSends bool) (partner *Task, parm i
 	return nil, -1
 }
 
+// configHash digests where every live task is parked and how full the channels they wait on are.
+func (s *Sim) configHash() uint64 {
+	h := uint64(1469598103934665603)
+	mix := func(v uint64) { h ^= v; h *= 1099511628211 }
+	for _, t := range s.live {
+		if t.state == tsExited {
+			continue
+		}
+		mix(uint64(t.ID))
+		mix(uint64(t.pend.kind))
+		mix(uint64(uint32(t.pend.site)))
+		switch t.pend.kind {
+		case gSend, gRecv:
+			if t.pend.ch.IsValid() && !t.pend.ch.IsNil() {
+				mix(uint64(t.pend.ch.Len()))
+			}
+		case gSelect:
+			for i := range t.pend.cases {
+				if c := &t.pend.cases[i]; !c.nilc {
+					mix(uint64(c.ch.Len()))
+				}
+			}
+		}
+	}
+	return h
+}
+
 // probeForeignCloses looks, when nothing is enabled, for channels that were closed by code
 // the instrumenter does not see (a context's cancel function, a standard-library goroutine):
 // for every parked receiver on an empty channel a non-blocking reflect receive is attempted.
@@ -580,7 +638,7 @@ func (s *Sim) probeForeignCloses() bool {
 			found = true
 		}
 	}
-	for _, t := range s.Tasks {
+	for _, t := range s.live {
 		if t.state != tsParked {
 			continue
 		}
@@ -598,13 +656,24 @@ func (s *Sim) probeForeignCloses() bool {
 	return found
 }
 
+const maxHBTasks = 4096
+
 func (s *Sim) computeEnabled() []*Task {
 	en := s.enabled[:0]
-	for _, t := range s.Tasks {
+	live := s.live[:0]
+	for _, t := range s.live {
+		if t.state == tsExited {
+			continue // exited tasks leave the scan list (ids stay valid in s.Tasks)
+		}
+		live = append(live, t)
 		if t.state == tsParked && s.ready(t) {
 			en = append(en, t)
 		}
 	}
+	for i := len(live); i < len(s.live); i++ {
+		s.live[i] = nil
+	}
+	s.live = live
 	s.enabled = en
 	return en
 }
@@ -637,6 +706,20 @@ func (s *Sim) Run(main func()) Result {
 		if len(en) == 0 {
 			if s.probeForeignCloses() {
 				continue
+			}
+			// Nothing is enabled. If timers keep waking tasks that do nothing observable and
+			// fall back into the very same configuration (a polling loop around time.After, a
+			// retry timer), the system is as idle as it will ever be: quiescent.
+			cfgH := s.configHash()
+			if cfgH == s.idleCfg && s.events == s.idleEvents {
+				s.idleRepeat++
+			} else {
+				s.idleCfg, s.idleEvents, s.idleRepeat = cfgH, s.events, 0
+			}
+			if s.idleRepeat >= 24 {
+				s.EndKind = "quiescent"
+				s.PeriodicIdle = true
+				break
 			}
 			if s.advanceClock() {
 				continue
@@ -836,11 +919,28 @@ func StartWatchdog(d time.Duration) {
 				fmt.Fprintf(os.Stderr, "simrt: WATCHDOG: no scheduler progress for %v (step %d)\n", d, cur.Steps)
 				dumpAndExit()
 			}
-			if cur == nil {
+			if cur == nil && atomic.LoadInt32(&busy) != 0 && time.Since(lastChange) > d {
+				fmt.Fprintf(os.Stderr, "simrt: WATCHDOG: library code executed outside a simulation (sequential reference / profiling) made no progress for %v - blocked on something only a simulated task could provide?\n", d)
+				dumpAndExit()
+			}
+			if cur == nil && atomic.LoadInt32(&busy) == 0 {
 				lastChange = time.Now()
 			}
 		}
 	}()
+}
+
+var busy int32
+
+// SetBusy tells the watchdog that the harness is executing library code outside a simulation
+// (call Progress regularly while busy).
+func SetBusy(b bool) {
+	v := int32(0)
+	if b {
+		v = 1
+	}
+	atomic.StoreInt32(&busy, v)
+	atomic.AddUint64(&progress, 1)
 }
 
 // Progress lets long harness computations outside the scheduler keep the watchdog quiet.
@@ -982,6 +1082,9 @@ func (t *Task) PendSite() int32 { return t.pend.site }
 
 // Exited reports whether the task has finished.
 func (t *Task) Exited() bool { return t.state == tsExited }
+
+// Live returns the tasks that have not exited yet (creation order).
+func (s *Sim) Live() []*Task { return s.live }
 
 // EnabledCount returns how many tasks were enabled at the last decision.
 func (s *Sim) EnabledCount() int { return len(s.enabled) }
